@@ -526,3 +526,134 @@ Proof.
   - pose proof (K_run_from d lg evs1 _ init Hnd (K_init lg)) as HK.
     eapply K_pending_le1; eauto.
 Qed.
+
+(* ------------------------------------------------------------------ the single worker across restarts:
+   the executed trace stays weakly increasing (a re-execution repeats the entry that was pending at the crash
+   before anything later runs) *)
+
+Lemma filter_all : forall (f : N -> bool) l, (forall x, In x l -> f x = true) -> filter f l = l.
+Proof.
+  intros f l. induction l as [|x l IH]; intros H; cbn [filter]; [reflexivity|].
+  rewrite (H x (or_introl eq_refl)). f_equal. apply IH. intros y Hy. apply H. now right.
+Qed.
+
+Record W (lg : log) (s : state) : Prop := {
+  W_prefix : prefix (committed s) (indices lg);
+  W_split : committed s = executed s ++ pending s ++ tasks s;
+  W_pend : (length (pending s) <= 1)%nat;
+  W_sorted : StronglySorted N.le (trace s);
+  W_bound : forall t x, In t (trace s) -> In x (pending s ++ tasks s) -> t <= x;
+  W_comm : forall t, In t (trace s) -> In t (committed s) }.
+
+Lemma W_init : forall lg, W lg init.
+Proof.
+  intros lg. constructor; cbn; try (intros; contradiction); try lia.
+  - exists (indices lg). reflexivity.
+  - reflexivity.
+  - constructor.
+Qed.
+
+Lemma sorted_le_snoc : forall l x,
+  StronglySorted N.le l -> (forall t, In t l -> t <= x) -> StronglySorted N.le (l ++ [x]).
+Proof.
+  induction l as [|a l IH]; intros x Hs Hb; cbn [app].
+  - constructor; constructor.
+  - apply StronglySorted_inv in Hs as [Hs Ha]. constructor.
+    + apply IH; auto. intros t Ht. apply Hb. now right.
+    + rewrite Forall_app. split; [exact Ha|]. constructor; [|constructor]. apply Hb. now left.
+Qed.
+
+Lemma unexecuted_split : forall lg s rest,
+  NoDup (indices lg) -> indices lg = committed s ++ rest ->
+  committed s = executed s ++ pending s ++ tasks s ->
+  unexecuted lg s = pending s ++ tasks s.
+Proof.
+  intros lg s rest Hnd Hpre Hsplit. unfold unexecuted.
+  set (f := fun i => memN i (committed s) && negb (memN i (executed s))).
+  rewrite Hpre. rewrite Hpre in Hnd.
+  assert (Hc : forall x, In x (committed s) -> memN x (committed s) = true) by (intros; now apply memN_In).
+  rewrite filter_app. rewrite (filter_none _ rest).
+  2:{ intros x Hx. unfold f. destruct (memN x (committed s)) eqn:M; [|reflexivity].
+      apply memN_In in M. exfalso. revert Hnd. rewrite NoDup_cnt. intros Hn. specialize (Hn x).
+      rewrite cnt_app in Hn. apply (count_occ_In N.eq_dec) in M. apply (count_occ_In N.eq_dec) in Hx. lia. }
+  rewrite app_nil_r.
+  assert (Hndc : NoDup (committed s)).
+  { apply NoDup_cnt. intros x. revert Hnd. rewrite NoDup_cnt. intros Hn. specialize (Hn x).
+    rewrite cnt_app in Hn. lia. }
+  rewrite Hsplit. rewrite filter_app. rewrite filter_none.
+  - cbn [app]. apply filter_all. intros x Hx. unfold f.
+    assert (Hin : In x (committed s)) by (rewrite Hsplit; apply in_or_app; now right).
+    rewrite (Hc _ Hin). cbn [andb].
+    destruct (memN x (executed s)) eqn:M; [|reflexivity].
+    apply memN_In in M. exfalso. rewrite Hsplit in Hndc. revert Hndc. rewrite NoDup_cnt. intros Hn. specialize (Hn x).
+    rewrite cnt_app in Hn. apply (count_occ_In N.eq_dec) in M. apply (count_occ_In N.eq_dec) in Hx. lia.
+  - intros x Hx. unfold f. apply memN_In in Hx. rewrite Hx. cbn [negb]. apply andb_false_r.
+Qed.
+
+Lemma W_step : forall lg s e,
+  StronglySorted N.lt (indices lg) -> W lg s -> W lg (step FifoWorker lg s e).
+Proof.
+  intros lg s e Hs [[rest Hpre] Hsplit Hpend Hsorted Hbound Hcomm].
+  pose proof (sorted_NoDup _ Hs) as Hnd.
+  destruct e as [idx|i0|i0|]; cbn [step].
+  - (* Commit *)
+    destruct (uncommitted_prefix lg s idx rest Hs Hpre) as [r Hr].
+    constructor; cbn [committed tasks pending trace executed]; auto.
+    + exists r. rewrite Hpre, Hr. now rewrite app_assoc.
+    + rewrite Hsplit. now rewrite <- !app_assoc.
+    + intros t x Ht Hx. rewrite app_assoc in Hx. apply in_app_or in Hx as [Hx|Hx]; [now apply Hbound|].
+      rewrite Hpre in Hs. destruct (sorted_app_inv _ _ Hs) as [_ [_ Hlt]].
+      assert (t < x); [|lia]. apply Hlt; [now apply Hcomm|]. rewrite Hr. apply in_or_app. now left.
+    + intros t Ht. apply in_or_app. left. now apply Hcomm.
+  - (* RunTask *)
+    destruct (runnable FifoWorker s i0) eqn:R.
+    2:{ constructor; auto. now exists rest. }
+    unfold runnable in R. destruct (tasks s) as [|j r] eqn:T; [discriminate|].
+    destruct (pending s) as [|p ps] eqn:P; [|discriminate]. apply N.eqb_eq in R. subst j.
+    constructor; cbn [committed tasks pending trace executed remove1 app]; rewrite ?N.eqb_refl.
+    + now exists rest.
+    + exact Hsplit.
+    + cbn. lia.
+    + apply sorted_le_snoc; auto. intros t Ht. apply Hbound; auto. cbn. now left.
+    + intros t x Ht Hx. apply in_app_or in Ht as [Ht|[<-|[]]].
+      * apply Hbound; auto.
+      * destruct Hx as [<-|Hx]; [lia|].
+        assert (Hc : StronglySorted N.lt (committed s)).
+        { rewrite Hpre in Hs. now destruct (sorted_app_inv _ _ Hs). }
+        rewrite Hsplit in Hc. cbn [app] in Hc.
+        destruct (sorted_app_inv _ _ Hc) as [_ [Hc2 _]].
+        apply StronglySorted_inv in Hc2 as [_ Hall]. rewrite Forall_forall in Hall. specialize (Hall _ Hx). lia.
+    + intros t Ht. apply in_app_or in Ht as [Ht|[<-|[]]]; auto.
+      rewrite Hsplit. apply in_or_app. right. cbn. now left.
+  - (* MarkExecuted *)
+    destruct (memN i0 (pending s)) eqn:M.
+    2:{ constructor; auto. now exists rest. }
+    apply memN_In in M. destruct (pending s) as [|p [|q ps]] eqn:P; cbn in Hpend; try lia; [destruct M|].
+    destruct M as [->|[]].
+    constructor; cbn [committed tasks pending trace executed remove1 app]; rewrite ?N.eqb_refl.
+    + now exists rest.
+    + rewrite Hsplit. cbn [app]. now rewrite <- app_assoc.
+    + cbn. lia.
+    + exact Hsorted.
+    + intros t x Ht Hx. apply Hbound; auto. cbn. now right.
+    + exact Hcomm.
+  - (* Restart *)
+    rewrite (unexecuted_split lg s rest Hnd Hpre Hsplit).
+    constructor; cbn [committed tasks pending trace executed app].
+    + now exists rest.
+    + exact Hsplit.
+    + cbn. lia.
+    + exact Hsorted.
+    + exact Hbound.
+    + exact Hcomm.
+Qed.
+
+Lemma fifo_restart_order : forall lg evs,
+  StronglySorted N.lt (indices lg) ->
+  StronglySorted N.le (trace (run FifoWorker lg evs)).
+Proof.
+  intros lg evs Hs. apply (W_sorted lg). unfold run, run_from.
+  assert (G : forall s, W lg s -> W lg (fold_left (step FifoWorker lg) evs s)).
+  { induction evs as [|e evs IH]; intros s HW; cbn [fold_left]; auto. apply IH. now apply W_step. }
+  apply G. apply W_init.
+Qed.
